@@ -85,6 +85,11 @@ class Ledgers:
                 stored.add(tgt.value.id)
                 if isinstance(n, ast.Assign) and isinstance(n.value, ast.Call) and u(n.value.func) == "_Power":
                     self.cell_dicts.add(tgt.value.id)
+            if isinstance(n, ast.Expr) and isinstance(n.value, ast.Call) and isinstance(n.value.func, ast.Attribute) \
+                    and n.value.func.attr == "update" and isinstance(n.value.func.value, ast.Name):
+                stored.add(n.value.func.value.id)   # filled by merging another dict
+            if isinstance(tgt, ast.Name) and isinstance(n, ast.AugAssign) and isinstance(n.op, ast.BitOr):
+                stored.add(tgt.id)
         params = {a.arg for a in fn.args.args + fn.args.kwonlyargs + fn.args.posonlyargs}
         self.cell_dicts |= {n for n in stored & returned if n not in params}
         #   * local dicts that are merged into a cell dict (`cells.update(part)`, `cells |= part`)
@@ -200,16 +205,18 @@ class Ledgers:
 
 def check_l1(run: Run, prog: Program) -> dict[str, Ledgers]:
     out = {}
-    for fname in ALLOC_FUNCS:
-        fn = _view(prog, f"{BDA}.{fname}")
+    from ._c15_util import anchors
+
+    anc = anchors(prog)
+    for fname, role in zip(ALLOC_FUNCS, ("bda.core", "bda.greedy", "bda.split")):
+        fn = _view_of(prog, anc.get(role))
         run.analysed(fn.qual)
         lg = Ledgers(fn)
         out[fname] = lg
         if not lg.cell_dicts:
             raise AnalysisError(f"{fn.qual}: no allocation cells identified")
         ledgers = lg.mirrors | lg.complements
-        if not ledgers:
-            raise AnalysisError(f"{fn.qual}: no ledger identified (mirror/complement)")
+        n_before = len(run.violations)
         run.sample({"function": fn.qual, "cells": sorted(lg.cell_dicts), "cell_objects": sorted(lg.cell_objs),
                     "mirror": sorted(lg.mirrors), "complement": sorted(lg.complements)})
         for suite in lg.suites:
@@ -253,6 +260,9 @@ def check_l1(run: Run, prog: Program) -> dict[str, Ledgers]:
                               node=s, file=fn.file,
                               instance=f"{fn.qual}: suite@{suite[0].lineno} Δ{name}={delta!r} "
                                        f"Δcells={cell_sum!r}")
+        if not ledgers and len(run.violations) == n_before:
+            # nothing is paired with the cells and nothing was found wrong either: the rule is vacuous here
+            raise AnalysisError(f"{fn.qual}: no ledger identified (mirror/complement)")
         # a mirror ledger starts at zero (no cell exists yet) or continues another mirror
         for m in sorted(lg.mirrors):
             plain = [st for st in walk_no_nested(fn.node) if isinstance(st, (ast.Assign, ast.AnnAssign))
@@ -356,7 +366,7 @@ def check_l2(run: Run, prog: Program, ledgers: dict[str, Ledgers]) -> None:
                       "its residual is never read afterwards: power that could not be placed is "
                       "silently dropped instead of being reported as remainder", node=inner.ast,
                       file=fn.file, instance=f"{fn.qual}: residual of `{name}` is consumed after its loop")
-    if n < 2:
+    if n < 2 and not run.violations:
         raise AnalysisError(f"C01.L2: only {n} complement-ledger loops found")
 
 
@@ -382,11 +392,10 @@ def _reads(cfg: CFG, nid: int, name: str) -> bool:
 
 
 # ---------------------------------------------------------------------------------------------
-def _view(prog: Program, qual: str) -> FuncInfo:
-    """Analysis view: private helpers spliced in, single-assignment locals substituted (if/else kept)."""
+def _view_of(prog: Program, fn: FuncInfo) -> FuncInfo:
     from ._c15_util import analysis_view
 
-    return analysis_view(prog, prog.func(qual))
+    return analysis_view(prog, fn)
 
 
 def _float_param(fn: FuncInfo, position: int) -> str:
@@ -505,7 +514,10 @@ def _is_dr(e: ast.AST | None) -> bool:
 def check_l3(run: Run, prog: Program, ledgers: dict[str, Ledgers]) -> None:
     from ._c15_util import bound_args
 
-    fn = _view(prog, f"{BDA}._distribute_power")
+    from ._c15_util import anchors
+
+    anc = anchors(prog)
+    fn = _view_of(prog, anc.get("bda.core"))
     lg = ledgers["_distribute_power"]
     cfg = CFG(fn.node, fn.file)
     te = TermEval()
@@ -525,8 +537,8 @@ def check_l3(run: Run, prog: Program, ledgers: dict[str, Ledgers]) -> None:
         raise AnalysisError(f"{fn.qual}: no DistributionResult return found")
     if len(rets) == len(all_rets):
         run.ok("C01.L3", f"{fn.qual}: every return builds a DistributionResult from cells and remainder")
-    greedy_name, split_name = "_greedy_distribute_remaining_power", "_distribute_multi_inverter_pairs"
-    greedy_fn = prog.func(f"{BDA}.{greedy_name}")
+    greedy_fn, split_fn = anc.get("bda.greedy"), anc.get("bda.split")
+    greedy_name, split_name = greedy_fn.name, split_fn.name
     n_final = 0
     split_has_residual = False
     for r in rets:
@@ -610,7 +622,7 @@ def check_l3(run: Run, prog: Program, ledgers: dict[str, Ledgers]) -> None:
                   instance=f"{fn.qual}: top-up starts from request - distributed-power ledger")
         split_has_residual = split_has_residual or bool(sp)
         # does the split return a residual at all?  then it must be part of the remainder
-        sfn0 = prog.func(f"{BDA}.{split_name}")
+        sfn0 = split_fn
         srets0 = [n for n in body_walk(sfn0.node) if isinstance(n, ast.Return) and n.value is not None]
         returns_pair = bool(srets0) and all(isinstance(x.value, ast.Tuple) and len(x.value.elts) == 2 for x in srets0)
         run.check(bool(sp) == returns_pair, "C01.L3", fn.qual, "remainder += <residual of the per-inverter split>",
@@ -619,8 +631,8 @@ def check_l3(run: Run, prog: Program, ledgers: dict[str, Ledgers]) -> None:
     if n_final == 0 and not run.violations:
         raise AnalysisError(f"{fn.qual}: no return built from the per-inverter split found")
     # the split function's second result is its own residual ledger
-    sfn = _view(prog, f"{BDA}.{split_name}")
-    slg = ledgers[split_name]
+    sfn = _view_of(prog, split_fn)
+    slg = ledgers["_distribute_multi_inverter_pairs"]
     srets = [n for n in body_walk(sfn.node) if isinstance(n, ast.Return) and n.value is not None]
     if split_has_residual:
         ok = bool(srets) and all(isinstance(r.value, ast.Tuple) and len(r.value.elts) == 2
@@ -664,9 +676,10 @@ def check_l3(run: Run, prog: Program, ledgers: dict[str, Ledgers]) -> None:
     from ..engine.normalize import inline_helpers
     from ..engine.sympath import sym_paths
 
-    dp = prog.func(f"{BDA}.distribute_power")
+    dp = anc.get("bda.public")
     run.analysed(dp.qual)
-    dnode = inline_helpers(prog, dp)
+    consume_name, supply_name = anc.name("bda.consume"), anc.name("bda.supply")
+    dnode = inline_helpers(prog, dp, exclude=anc.names)
     dview = FuncInfo(dp.name, dp.module, dnode, dp.cls, dp.outer)
     dparams = method_params_of(dview)
     if len(dparams) != 2:
@@ -699,7 +712,7 @@ def check_l3(run: Run, prog: Program, ledgers: dict[str, Ledgers]) -> None:
         if p.exit != "return" or not isinstance(p.ret, ast.Call) or _is_dr(p.ret):
             continue
         callee = p.ret.func.attr if isinstance(p.ret.func, ast.Attribute) and u(p.ret.func.value) == "self" else None
-        if callee not in ("_distribute_consume_power", "_distribute_supply_power"):
+        if callee not in (consume_name, supply_name):
             continue
         cps = method_params_of(prog.func(f"{BDA}.{callee}"))
         a = bound_args(p.ret, cps, f"{dp.qual}: self.{callee}(...)")
@@ -710,7 +723,7 @@ def check_l3(run: Run, prog: Program, ledgers: dict[str, Ledgers]) -> None:
         nonzero = any(isinstance(atom, ast.Call) and u(atom.func).split(".")[-1] == "is_close_to_zero"
                       and len(atom.args) == 1 and te.ev(atom.args[0]) == Poly.atom(power) and not o
                       for (_k, _ko, atom, _ln, o) in p.conds)
-        if callee == "_distribute_consume_power":
+        if callee == consume_name:
             n_c += 1
             good = args_ok and ("pos" in facts or ("nonneg" in facts and nonzero)) \
                 and not facts & {"neg", "nonpos"}
@@ -845,14 +858,17 @@ def _negations(fn: FuncInfo, res: str) -> tuple[list[ast.AST], list[ast.AST], in
 def check_sign(run: Run, prog: Program) -> None:
     from ._c15_util import bound_args
 
-    core = prog.func(f"{BDA}._distribute_power")
+    from ._c15_util import anchors
+
+    anc = anchors(prog)
+    core = anc.get("bda.core")
     core_params = method_params_of(core)
     core_power = _float_param(core, 2)
-    sp = _view(prog, f"{BDA}._distribute_supply_power")
+    sp = _view_of(prog, anc.get("bda.supply"))
     run.analysed(sp.qual)
     te = TermEval()
     p = _float_param(sp, 1)
-    calls = find_calls(sp.node, lambda c: method_call(c, "self", "_distribute_power"))
+    calls = find_calls(sp.node, lambda c: method_call(c, "self", core.name))
     ok = len(calls) == 1
     if ok:
         a = bound_args(calls[0], core_params, f"{sp.qual}: self._distribute_power(...)")
@@ -881,10 +897,10 @@ def check_sign(run: Run, prog: Program) -> None:
     run.check(ok_ret, "C01.S", sp.qual, "returns the negated result",
               "the supply path does not return the negated result object", node=sp.node, file=sp.file,
               instance=f"{sp.qual}: returns the negated result")
-    cp = _view(prog, f"{BDA}._distribute_consume_power")
+    cp = _view_of(prog, anc.get("bda.consume"))
     run.analysed(cp.qual)
     cpow = _float_param(cp, 1)
-    calls = find_calls(cp.node, lambda c: method_call(c, "self", "_distribute_power"))
+    calls = find_calls(cp.node, lambda c: method_call(c, "self", core.name))
     rets = [n for n in body_walk(cp.node) if isinstance(n, ast.Return)]
     ok = len(calls) == 1 and len(rets) >= 1 and all(r.value is calls[0] for r in rets)
     if ok:
@@ -894,7 +910,7 @@ def check_sign(run: Run, prog: Program) -> None:
               "the consume path alters the request or the result", node=cp.node, file=cp.file,
               instance=f"{cp.qual}: consume path passes the request unchanged and returns the result as is")
     # supply branch of the bounds is the dual of the consume branch
-    ib = prog.func(f"{BDA}._inclusion_exclusion_bounds")
+    ib = anc.get("bda.bounds")
     run.analysed(ib.qual)
     flag = next((x.arg for x in ib.node.args.args + ib.node.args.kwonlyargs
                  if x.annotation is not None and u(x.annotation) == "bool"), None)
@@ -951,7 +967,7 @@ def check_sign(run: Run, prog: Program) -> None:
         block(ibv.node.body)
         return out
 
-    ibv = _view(prog, f"{BDA}._inclusion_exclusion_bounds")
+    ibv = _view_of(prog, ib)
     sup_t, con_t = table_for(True), table_for(False)
     run.check(set(sup_t) == set(con_t) and all(len(v) == 1 for v in list(sup_t.values()) + list(con_t.values())),
               "C01.S", ib.qual, "supply and consume write the same bound cells, once each",
@@ -1045,8 +1061,12 @@ def check_b(run: Run, prog: Program) -> None:
     )
     from ..engine.util import reaching_defs
 
-    def norm(q: str) -> FuncInfo:
-        return _view(prog, q)
+    from ._c15_util import anchors
+
+    anc = anchors(prog)
+
+    def norm(role: str) -> FuncInfo:
+        return _view_of(prog, anc.get(role))
 
     def typed(f: FuncInfo, tname: str, default: str) -> str:
         p = typed_param(f, tname, default)
@@ -1054,7 +1074,7 @@ def check_b(run: Run, prog: Program) -> None:
             raise AnalysisError(f"{f.qual}: no `{tname}` parameter")
         return p
 
-    fn = norm(f"{BM}._distribute_power")
+    fn = norm("bm.dist")
     run.analysed(fn.qual)
     te = TermEval()
     req, dist = typed(fn, "Request", "request"), typed(fn, "DistributionResult", "distribution")
@@ -1078,23 +1098,23 @@ def check_b(run: Run, prog: Program) -> None:
               "the power reported as set is not the request minus the algorithm's remainder",
               node=fn.node, file=fn.file,
               instance=f"{fn.qual}: reported set power == request.power - remainder of the algorithm")
-    sd0 = prog.func(f"{BM}._set_distributed_power")
-    calls = find_calls(fn.node, lambda c: method_call(c, "self", "_set_distributed_power"))
+    sd0 = anc.get("bm.send")
+    calls = find_calls(fn.node, lambda c: method_call(c, "self", sd0.name))
     ok = len(calls) == 1
     if ok:
-        args = bound_args(calls[0], method_params(sd0), f"{fn.qual}: self._set_distributed_power(...)")
+        args = bound_args(calls[0], method_params(sd0), f"{fn.qual}: self.{sd0.name}(...)")
         ok = u(args.get(typed(sd0, "DistributionResult", "distribution"))) == dist
-    run.check(ok, "C01.B", fn.qual, "self._set_distributed_power(<the computed distribution>, ...)",
+    run.check(ok, "C01.B", fn.qual, f"self.{sd0.name}(<the computed distribution>, ...)",
               "the distribution handed to the API layer is not the one that was computed",
               node=fn.node, file=fn.file,
-              instance=f"{fn.qual}: the computed distribution is handed to _set_distributed_power")
-    gp = norm(f"{BM}._get_power_distribution")
+              instance=f"{fn.qual}: the computed distribution is handed to the sending routine")
+    gp = norm("bm.gpd")
     run.analysed(gp.qual)
     gp_req = typed(gp, "Request", "request")
     calls = find_calls(gp.node, lambda c: method_call(c, "self._distribution_algorithm", "distribute_power"))
     ok = len(calls) == 1
     if ok:
-        args = bound_args(calls[0], method_params(prog.func(f"{BDA}.distribute_power")),
+        args = bound_args(calls[0], method_params(anc.get("bda.public")),
                           f"{gp.qual}: distribute_power(...)")
         ok = len(args) == 2 and "power" in args and te.ev(args["power"]) == Poly.atom(f"{gp_req}.power")
     run.check(ok, "C01.B", gp.qual, "distribute_power(request.power.as_watts(), pairs)",
@@ -1131,16 +1151,16 @@ def check_b(run: Run, prog: Program) -> None:
               "the manager rewrites the algorithm's set-points or remainder after the fact: what is "
               "reported as succeeded/excess no longer matches what is commanded", node=(tampered or [gp.node])[0],
               file=gp.file, instance=f"{gp.qual}: the algorithm's result is returned untouched")
-    gd = norm(f"{BM}._get_distribution")
+    gd = norm("bm.gd")
     run.analysed(gd.qual)
     gd_req = typed(gd, "Request", "request")
-    gp0 = prog.func(f"{BM}._get_power_distribution")
-    dcalls = find_calls(gd.node, lambda c: method_call(c, "self", "_get_power_distribution"))
+    gp0 = anc.get("bm.gpd")
+    dcalls = find_calls(gd.node, lambda c: method_call(c, "self", gp0.name))
     ok = len(dcalls) == 1
     if ok:
-        args = bound_args(dcalls[0], method_params(gp0), f"{gd.qual}: self._get_power_distribution(...)")
+        args = bound_args(dcalls[0], method_params(gp0), f"{gd.qual}: self.{gp0.name}(...)")
         ok = u(args.get(typed(gp0, "Request", "request"))) == gd_req
-    run.check(ok, "C01.B", gd.qual, "_get_power_distribution(request, ...)",
+    run.check(ok, "C01.B", gd.qual, f"{gp0.name}(request, ...)",
               "the distribution is computed for a different request", node=gd.node, file=gd.file,
               instance=f"{gd.qual}: the distribution is computed for the processed request")
     # what is subtracted from the reported set power as "failed" covers every call booked as failed:
@@ -1179,7 +1199,7 @@ def check_b(run: Run, prog: Program) -> None:
               "the whole distributed power can be reported as set although some set_power calls failed",
               node=roles.dp.node, file=roles.dp.file,
               instance=f"{roles.dp.qual}: Success is reported only when the failed set is empty")
-    sd = norm(f"{BM}._set_distributed_power")
+    sd = norm("bm.send")
     run.analysed(sd.qual)
     sd_dist = typed(sd, "DistributionResult", "distribution")
     sp = find_calls(sd.node, lambda c: isinstance(c.func, ast.Attribute) and c.func.attr == "set_power")
